@@ -654,6 +654,45 @@ def parseTy {α : Type} (W : World α) (o : Opts) : Ty α → Parser α
   | .map tk tv => fun v => (parseMapRule W o.keys o.values (parseTy W o tk) (some (parseTy W o tv)) v).toOption
   | .mapK tk => fun v => (parseMapRule W o.keys o.values (parseTy W o tk) none v).toOption
 
+/-! ### a container inside a union (`Optional[List[int]]`, `Union[List[int], int]`) -/
+
+/-- the conversion preferences a union tries its conditions under (`LogicalType.logical_parse`, combinator `|`,
+rule.py): stage 2 `no_data_loss + no_explicit_cast`, stage 3 `no_data_loss`, stage 4 the running options -/
+inductive Mode where
+  | strict | noLoss | common
+  deriving DecidableEq, Repr
+
+/-- a condition of a union: its converter under a stage's preferences and the three `invalid_*` policies -/
+abbrev Branch (α : Type) := Mode → Opts → Parser α
+
+def firstSome {α : Type} : List (Parser α) → Parser α
+  | [], _ => none
+  | p :: ps, v => match p v with
+    | some r => some r
+    | none => firstSome ps v
+
+/-- `logical_parse` for `|`, stages 2-4 (stage 1 returns a value that already has exactly the type of a condition;
+a value never has the type of a `Rule` container condition).  `fix = true` is the code after
+`fixes/C11-union-trial-stages.patch`: the two trial stages run their conditions with the `invalid_*` policies
+at `throw` — they ask whether a condition accepts the value as it is — and only the stage whose result is
+returned uses the declared policies.  `fix = false`: the trial stages inherit the policies. -/
+def unionParse {α : Type} (fix : Bool) (o : Opts) (bs : List (Branch α)) (v : α) : Option α :=
+  let trial := if fix then Opts.strict else o
+  match firstSome (bs.map fun b => b .strict trial) v with
+  | some r => some r
+  | none =>
+    match firstSome (bs.map fun b => b .noLoss trial) v with
+    | some r => some r
+    | none => firstSome (bs.map fun b => b .common o) v
+
+/-- a sequence condition; the element converter depends on the stage's preferences -/
+def seqBranch {α : Type} (W : World α) (k : SeqKind) (p : Mode → Parser α) : Branch α :=
+  fun m o v => (parseSeqRule W k o.items (p m) v).toOption
+
+/-- a mapping condition -/
+def mapBranch {α : Type} (W : World α) (kp : Mode → Parser α) (vp : Option (Mode → Parser α)) : Branch α :=
+  fun m o v => (parseMapRule W o.keys o.values (kp m) (vp.map fun q => q m) v).toOption
+
 /-! ### nested data classes -/
 
 /-- what a field declares besides its type -/
